@@ -18,3 +18,34 @@ def c04_ops_wat(ops):
         out.append('  (func $f_%s (export "f_%s") %s %s\n%s\n    %s\n  )' % (name.replace(".", "_"), name.replace(".", "_"), p, r, gets, name))
     out.append(")")
     return "\n".join(out) + "\n"
+
+
+LOADS = [("i32.load", 4, "i", False), ("i64.load", 8, "I", False), ("f32.load", 4, "f", False), ("f64.load", 8, "F", False),
+         ("i32.load8_s", 1, "i", True), ("i32.load8_u", 1, "i", False), ("i32.load16_s", 2, "i", True), ("i32.load16_u", 2, "i", False),
+         ("i64.load8_s", 1, "I", True), ("i64.load8_u", 1, "I", False), ("i64.load16_s", 2, "I", True), ("i64.load16_u", 2, "I", False),
+         ("i64.load32_s", 4, "I", True), ("i64.load32_u", 4, "I", False)]
+STORES = [("i32.store", 4, "i"), ("i64.store", 8, "I"), ("f32.store", 4, "f"), ("f64.store", 8, "F"),
+          ("i32.store8", 1, "i"), ("i32.store16", 2, "i"), ("i64.store8", 1, "I"), ("i64.store16", 2, "I"), ("i64.store32", 4, "I")]
+# (offset, align) immediates written in the text: none, small, multi-byte LEB offset, reduced alignment
+MEMARGS = [(None, None), (3, None), (200, 1), (70000, None)]
+
+
+def memarg_text(off, align):
+    t = ""
+    if off is not None:
+        t += " offset=%d" % off
+    if align is not None:
+        t += " align=%d" % align
+    return t
+
+
+def c04_mem_wat():
+    out = ["(module $c04mem", "  (memory $memory 2)"]
+    for name, n, rt, signed in LOADS:
+        for k, (off, al) in enumerate(MEMARGS):
+            out.append('  (func (export "%s_%d") (param i32) (result %s)\n    local.get 0\n    %s%s\n  )' % (name.replace(".", "_"), k, TY[rt], name, memarg_text(off, al)))
+    for name, n, vt in STORES:
+        for k, (off, al) in enumerate(MEMARGS):
+            out.append('  (func (export "%s_%d") (param i32) (param %s)\n    local.get 0\n    local.get 1\n    %s%s\n  )' % (name.replace(".", "_"), k, TY[vt], name, memarg_text(off, al)))
+    out.append(")")
+    return "\n".join(out) + "\n"
